@@ -3,7 +3,7 @@
  *   pdsh [-S] [-k] -R exec -w h[0-n] exit_helper %n SPEC0 SPEC1 ...
  *
  * exec replaces %n by the rank; the helper acts out SPEC<rank>:
- *   SPEC = o<hex>:<end>     write the bytes <hex> ("-" = nothing) to stdout, then
+ *   SPEC = o<hex>:<end>     write the bytes <hex> ("-" = nothing; L<n> = one line of <n> characters) to stdout, then
  *   <end> = e<code>         exit with <code>
  *           s<sig>          kill itself with signal <sig> (core dumps disabled)
  *           t<secs>         sleep <secs> (to be timed out by -u), then exit 0
@@ -11,6 +11,11 @@
  *                           pdsh's worker thread then notices the expiry itself at the top of its poll loop); on SIGTERM
  *                           exit with <code> (the command traps TERM)
  *           y<ms>_d         chatty, SIGTERM has its default action (a plain command: killed by signal 15)
+ *           T<secs>         like t<secs>, and a SIGTERM that arrives meanwhile is recorded (see VERIF_KTRACE) before the
+ *                           command ends with 143: a sibling that pdsh -k terminates
+ *   <end> may be preceded by W<ms>_ : sleep <ms> milliseconds first, before anything is written (a command that fails in mid-run)
+ *   VERIF_KTRACE=<dir> (environment): the command leaves <dir>/start.<rank> when it starts, <dir>/term.<rank> when
+ *   SIGTERM reaches a T command, <dir>/end.<rank> when a T command sleeps to its end
  *   <end> may be preceded by c<ms>_ : close stdin, stdout and stderr first (pdsh sees EOF on both streams and
  *   goes on to rcmd_destroy -> exec_destroy -> pipecmd_wait while the command is still running), sleep <ms>
  *   milliseconds, and only then end as <end> says
@@ -23,9 +28,32 @@
 #include <sys/resource.h>
 #include <time.h>
 #include <unistd.h>
+#include <fcntl.h>
 
 static int chatty_code;
 static void on_term(int sig) { (void) sig; _exit(chatty_code); }
+
+static char trace_term[4096];
+static void touch(const char *dir, const char *what, int rank)
+{
+    char p[4096];
+    FILE *f;
+    if (!dir)
+        return;
+    snprintf(p, sizeof p, "%s/%s.%d", dir, what, rank);
+    if ((f = fopen(p, "w")))
+        fclose(f);
+}
+static void on_term_trace(int sig)
+{
+    (void) sig;
+    if (trace_term[0]) {
+        int fd = creat(trace_term, 0644);
+        if (fd >= 0)
+            close(fd);
+    }
+    _exit(143);
+}
 
 static int hexval(int c)
 {
@@ -48,7 +76,40 @@ int main(int argc, char **argv)
     spec = argv[rank + 2];
     if (spec[0] != 'o' || !(end = strchr(spec, ':')))
         return 202;
-    if (spec[1] != '-') {
+    {   /* a T command records a SIGTERM from its very beginning (before it sleeps or writes: pdsh -k may send the signal
+         * the moment it has read what is written below) */
+        const char *e2 = end + 1;
+        if (*e2 == 'W' && strchr(e2, '_'))
+            e2 = strchr(e2, '_') + 1;
+        if (*e2 == 'T') {
+            sigset_t none;
+            const char *d = getenv("VERIF_KTRACE");
+            if (d)
+                snprintf(trace_term, sizeof trace_term, "%s/term.%d", d, rank);
+            sigemptyset(&none);
+            sigprocmask(SIG_SETMASK, &none, NULL);
+            signal(SIGTERM, on_term_trace);
+        }
+    }
+    touch(getenv("VERIF_KTRACE"), "start", rank);
+    if (end[1] == 'W') {            /* sleep BEFORE anything is written */
+        int ms = atoi(end + 2);
+        struct timespec ts = { ms / 1000, (ms % 1000) * 1000000L };
+        while (nanosleep(&ts, &ts) < 0)
+            ;
+    }
+    if (spec[1] == 'L') {           /* oL<n>: one line of <n> characters */
+        long n = atol(spec + 2), i;
+        static char blk[4096];
+        memset(blk, 'x', sizeof blk);
+        for (i = 0; i < n; i += (long) sizeof blk) {
+            size_t m = (size_t) (n - i < (long) sizeof blk ? n - i : (long) sizeof blk);
+            if (write(1, blk, m) != (ssize_t) m)
+                return 203;
+        }
+        if (write(1, "\n", 1) != 1)
+            return 203;
+    } else if (spec[1] != '-') {
         char *p;
         for (p = spec + 1; p + 1 < end + 1 && p < end; p += 2) {
             unsigned char b = (unsigned char) (hexval(p[0]) * 16 + hexval(p[1]));
@@ -57,6 +118,12 @@ int main(int argc, char **argv)
         }
     }
     end++;
+    if (end[0] == 'W') {
+        char *u = strchr(end, '_');
+        if (!u)
+            return 209;
+        end = u + 1;
+    }
     if (end[0] == 'c') {
         int ms = atoi(end + 1);
         struct timespec ts = { ms / 1000, (ms % 1000) * 1000000L };
@@ -106,6 +173,19 @@ int main(int argc, char **argv)
         return 204;
     case 't':
         sleep(atoi(end + 1));
+        return 0;
+    case 'T':
+        {
+            sigset_t none;
+            const char *d = getenv("VERIF_KTRACE");
+            if (d)
+                snprintf(trace_term, sizeof trace_term, "%s/term.%d", d, rank);
+            sigemptyset(&none);
+            sigprocmask(SIG_SETMASK, &none, NULL);
+            signal(SIGTERM, on_term_trace);
+            sleep(atoi(end + 1));
+            touch(d, "end", rank);
+        }
         return 0;
     }
     return 205;
